@@ -764,3 +764,41 @@ def sv_current_hamiltonian(ctx) -> None:
     ctx.ob("ROLE-sv", "rebuild only when no generator is stored", g.loc(), rebuilt_unguarded is None,
            "_apply_observables builds a generator only under `not self._current_H`" if rebuilt_unguarded is None else
            f"_apply_observables: {rebuilt_unguarded}")
+
+
+def sv_solver_table(ctx) -> None:
+    """emu-sv picks its solver from the presence of Lindblad operators: jump operators present ⇒ density matrix evolved by
+    EvolveDensityMatrix; none ⇒ state vector evolved by EvolveStateVector — on every constructing path, stepper and state
+    of the same kind.  (With the pair exchanged, noise is silently ignored or a noiseless run pays 4ⁿ.)  The requested
+    `gpu=None` resolves to True (use a GPU when there is one)."""
+    prog = ctx.prog
+    K = prog.cls("emu_sv.sv_backend_impl.SVBackendImpl")
+    f = K.methods["__init__"]
+    data = ("param", f.qualname, "data")
+    paths = [p for p in Interp(prog, K, inline=lambda c, r, d: False, loop_iters=(1,)).run(f) if p.status == "return"]
+    ctx.require(paths, "DISPATCH-sv: SVBackendImpl.__init__ has no returning path")
+    table = {}
+    bad = None
+    for p in paths:
+        noisy = None
+        for c, t in p.cond_log:
+            c0 = strip_typed(c)
+            if c0 in (("attr", data, "lindblad_ops"), ("attr", SELF, "pulser_lindblads")):
+                noisy = t
+            if c0[0] == "cmp" and c0[1] in (">", "!=") and strip_typed(c0[3]) == ("const", 0) and "lindblad_ops" in show(c0[2]):
+                noisy = t
+        st = strip_typed(p.heap.get((SELF, "stepper"), ("const", None)))
+        sv = strip_typed(p.heap.get((SELF, "state"), ("const", None)))
+        stepper = st[1].split(".")[-1] if st[0] == "ref" else show(st)[:30]
+        state = sv[1].split(".")[-1] if sv[0] == "new" else (strip_typed(sv[1])[1].split(".")[-1] if sv[0] == "mcall" and strip_typed(sv[1])[0] == "ref" else show(sv)[:30])
+        if noisy is None:
+            bad = f"a constructing path never consults the Lindblad operators (stepper {stepper}, state {state})"
+            continue
+        table.setdefault(noisy, set()).add((stepper, state))
+    want = {True: {("EvolveDensityMatrix", "DensityMatrix")}, False: {("EvolveStateVector", "StateVector")}}
+    if bad is None and table != want:
+        bad = f"(jump operators present → stepper, state) is { {k: sorted(v) for k, v in table.items()} }"
+    ctx.ob("DISPATCH-sv", "solver table", f.loc(), bad is None,
+           "jump operators ⇒ (EvolveDensityMatrix, DensityMatrix); none ⇒ (EvolveStateVector, StateVector)" if bad is None else
+           f"SVBackendImpl.__init__: {bad}; expected noise ⇒ (EvolveDensityMatrix, DensityMatrix), none ⇒ "
+           f"(EvolveStateVector, StateVector): Lindblad noise is ignored or applied to the wrong object")
